@@ -210,10 +210,10 @@ func (r *c12Run) putAcc(name string, a c12Acc) error {
 }
 
 type c12StorageOp struct {
-	key    string
-	val    string
-	del    bool
-	inner  int // 0 none, 1 = take ContractState snapshot before this op, 2 = rollback to it after this op
+	key   string
+	val   string
+	del   bool
+	inner int // 0 none, 1 = take ContractState snapshot before this op, 2 = rollback to it after this op
 }
 
 // contractTx opens the contract, applies ops (with optional inner snapshot/rollback) and stages it.
